@@ -68,12 +68,15 @@ def afterInsert (size used resize : Nat) : Nat × Bool :=
     rearrangement serves; the model reverses. -/
 def rehash (recs : List (Nat × List Nat)) : List (Nat × List Nat) := recs.reverse
 
-/-- `lyht_insert` of a fresh record for `t` (the caller has checked that there is none). -/
-def insertRec (tab : ErrTable) (t : Nat) : ErrTable :=
+/-- `lyht_insert` of a fresh record for `t` (the caller has checked that there is none).  `inl`: the table stores the
+    records themselves (`Generated.ERR_REC_INLINE`, the pinned tree); otherwise it stores pointers to separately
+    allocated records, which a resize does not move. -/
+def insertRec (inl : Bool) (tab : ErrTable) (t : Nat) : ErrTable :=
   let used := tab.used + 1
   let recs := tab.recs ++ [(t, [])]
   let (resize', enl) := afterInsert tab.size used tab.resize
-  if enl then { size := tab.size * 2, used := used, resize := resize', gen := tab.gen + 1, recs := rehash recs }
+  if enl then { size := tab.size * 2, used := used, resize := resize', gen := tab.gen + 1,
+                recs := if inl then rehash recs else recs }
   else { tab with used := used, resize := resize', recs := recs }
 
 inductive ErrStep where
@@ -93,7 +96,7 @@ def setErrs (recs : List (Nat × List Nat)) (slot : Nat) (f : List Nat → List 
   | none => recs
 
 /-- One step of thread `t`. -/
-def estep (s : ErrState) (t : Nat) : ErrStep → Except ConcErr ErrState
+def estep (inl : Bool) (s : ErrState) (t : Nat) : ErrStep → Except ConcErr ErrState
   | .getRec => .ok (setPtr s t ((findSlot t s.tab.recs).map (fun i => ⟨s.tab.gen, i⟩)))
   | .newRecIfNull =>
     match s.ptr t with
@@ -102,13 +105,13 @@ def estep (s : ErrState) (t : Nat) : ErrStep → Except ConcErr ErrState
       match findSlot t s.tab.recs with
       | some _ => .ok s                                   -- LY_EEXIST: ly_err_new_rec returns NULL
       | none =>
-        let tab := insertRec s.tab t
+        let tab := insertRec inl s.tab t
         .ok (setPtr { s with tab := tab } t ((findSlot t tab.recs).map (fun i => ⟨tab.gen, i⟩)))
   | .read =>
     match s.ptr t with
     | none => .ok { s with obs := s.obs ++ [⟨t, t, []⟩] }        -- NULL: "no error stored"
     | some p =>
-      if p.gen ≠ s.tab.gen then .error .stalePointer
+      if inl && p.gen ≠ s.tab.gen then .error .stalePointer
       else match s.tab.recs[p.slot]? with
         | some (o, es) => .ok { s with obs := s.obs ++ [⟨t, o, es⟩] }
         | none => .ok s
@@ -116,20 +119,20 @@ def estep (s : ErrState) (t : Nat) : ErrStep → Except ConcErr ErrState
     match s.ptr t with
     | none => .ok s
     | some p =>
-      if p.gen ≠ s.tab.gen then .error .stalePointer
+      if inl && p.gen ≠ s.tab.gen then .error .stalePointer
       else .ok { s with tab := { s.tab with recs := setErrs s.tab.recs p.slot (· ++ [e]) } }
   | .clean =>
     match s.ptr t with
     | none => .ok s
     | some p =>
-      if p.gen ≠ s.tab.gen then .error .stalePointer
+      if inl && p.gen ≠ s.tab.gen then .error .stalePointer
       else .ok { s with tab := { s.tab with recs := setErrs s.tab.recs p.slot (fun _ => []) } }
 
-def errRun (s : ErrState) : List (Nat × ErrStep) → Except ConcErr ErrState
+def errRun (inl : Bool) (s : ErrState) : List (Nat × ErrStep) → Except ConcErr ErrState
   | [] => .ok s
   | (t, st) :: r =>
-    match estep s t st with
-    | .ok s' => errRun s' r
+    match estep inl s t st with
+    | .ok s' => errRun inl s' r
     | .error e => .error e
 
 /-! ### API calls as step lists -/
@@ -153,7 +156,7 @@ def prog (calls : List ErrCall) : List ErrStep := (calls.map ErrCall.steps).flat
 def thresholdFrom : Nat → ErrTable → Option Nat
   | 0, _ => none
   | fuel + 1, tab =>
-    let tab' := insertRec tab tab.used       -- tids 0,1,2,… are fresh
+    let tab' := insertRec true tab tab.used  -- tids 0,1,2,… are fresh
     if tab'.gen ≠ tab.gen then some tab'.used else thresholdFrom fuel tab'
 
 def staleThreshold : Nat := (thresholdFrom 64 errInit.tab).getD 0
